@@ -1867,3 +1867,337 @@ Proof.
     + rewrite IHt. f_equal. rewrite <- (map_id cs) at 2. apply map_ext_in. intros c Hc.
       rewrite Forall_forall in IHcs. rewrite IHcs by auto. destruct c; reflexivity.
 Qed.
+
+(* ================= DomainRenamer on fragment trees with memories, whole traces ================= *)
+
+
+Lemma flatten_rename rho f : no_merge rho f -> flatten (domain_renamer rho f) = map (ren_entry rho) (flatten f).
+Proof.
+  induction f as [st ms subs IH] using frag_ind2. intros H. cbn [domain_renamer flatten].
+  rewrite map_app. f_equal.
+  - destruct (H st (or_introl eq_refl)) as [H1 H2]. apply rename_entries_spec; auto.
+  - assert (Hs : forall s, In s subs -> no_merge rho s).
+    { intros s Hs st' Hst'. apply H. cbn [frag_nodes]. right. apply in_flat_map. eauto. }
+    clear H. induction subs as [|s subs IHs]; auto. inversion IH; subst. cbn [map flat_map]. rewrite map_app. f_equal.
+    + apply H1. apply Hs. simpl. auto.
+    + apply IHs; auto. intros; apply Hs; simpl; auto.
+Qed.
+
+Lemma frag_mems_rename rho f : frag_mems (domain_renamer rho f) = map (rename_mem rho) (frag_mems f).
+Proof.
+  induction f as [st ms subs IH] using frag_ind2. cbn [domain_renamer frag_mems]. rewrite map_app. f_equal.
+  induction subs as [|s subs IHs]; auto. inversion IH; subst. cbn [map flat_map]. rewrite map_app. f_equal; auto.
+Qed.
+
+
+Lemma uniq_sub : forall l seen x, In x (uniq seen l) -> In x l.
+Proof.
+  induction l as [|y l IH]; intros seen x Hx; [simpl in Hx; contradiction|].
+  cbn [uniq] in Hx. destruct (existsb (Nat.eqb y) seen).
+  - right. eapply IH; eauto.
+  - destruct Hx as [<-|Hx]; [left; auto|right; eapply IH; eauto].
+Qed.
+
+Lemma uniq_map (g : nat -> nat) : forall l seen,
+  (forall x y, In x (seen ++ l) -> In y (seen ++ l) -> g x = g y -> x = y) ->
+  uniq (map g seen) (map g l) = map g (uniq seen l).
+Proof.
+  induction l as [|x l IH]; intros seen Hinj; [reflexivity|]. cbn [map uniq].
+  assert (E : existsb (Nat.eqb (g x)) (map g seen) = existsb (Nat.eqb x) seen).
+  { destruct (existsb (Nat.eqb x) seen) eqn:E1.
+    - apply existsb_exists in E1. destruct E1 as [y [Hy Hxy]]. apply Nat.eqb_eq in Hxy. subst y.
+      apply existsb_exists. exists (g x). split; [apply in_map; auto|apply Nat.eqb_refl].
+    - destruct (existsb (Nat.eqb (g x)) (map g seen)) eqn:E2; auto.
+      apply existsb_exists in E2. destruct E2 as [z [Hz Hgz]]. apply Nat.eqb_eq in Hgz. subst z.
+      apply in_map_iff in Hz. destruct Hz as [y [Hgy Hy]].
+      assert (y = x). { apply Hinj; auto; apply in_or_app; [left; auto|right; simpl; auto]. }
+      subst y. assert (existsb (Nat.eqb x) seen = true) by (apply existsb_exists; exists x; split; auto; apply Nat.eqb_refl).
+      congruence. }
+  rewrite E. destruct (existsb (Nat.eqb x) seen).
+  - apply IH. intros a b Ha Hb. apply Hinj; apply in_app_or in Ha; apply in_app_or in Hb; apply in_or_app;
+      [destruct Ha; [left|right; simpl]; auto|destruct Hb; [left|right; simpl]; auto].
+  - cbn [map]. f_equal. apply (IH (x :: seen)). intros a b Ha Hb. apply Hinj.
+    + cbn [app] in Ha. destruct Ha as [<-|Ha]; [apply in_or_app; right; simpl; auto|].
+      apply in_app_or in Ha. apply in_or_app. destruct Ha; [left|right; simpl]; auto.
+    + cbn [app] in Hb. destruct Hb as [<-|Hb]; [apply in_or_app; right; simpl; auto|].
+      apply in_app_or in Hb. apply in_or_app. destruct Hb; [left|right; simpl]; auto.
+Qed.
+
+Lemma filter_map_comm {A B} (p : B -> bool) (q : A -> bool) (g : A -> B) l :
+  (forall x, In x l -> p (g x) = q x) -> filter p (map g l) = map g (filter q l).
+Proof.
+  induction l as [|x l IH]; intros H; [reflexivity|]. cbn [map filter]. rewrite H by (simpl; auto).
+  rewrite IH by (intros; apply H; simpl; auto). destruct (q x); reflexivity.
+Qed.
+
+Section RenameMem.
+Variables (D : design) (rho : list (nat * nat)) (doms' : domtab) (U : list nat).
+Let r := rename_dom rho.
+Let D' := {| g_tab := g_tab D; g_doms := doms'; g_procs := map (ren_entry rho) (g_procs D); g_nsig := g_nsig D |}.
+Hypothesis Hzero : forall d, In d U -> (r d = 0%nat <-> d = 0%nat).
+Hypothesis Hcfg : forall d, In d U -> d <> 0%nat -> doms' (r d) = g_doms D d.
+Hypothesis HUp : forall p, In p (g_procs D) -> In (fst p) U.
+
+Lemma r_eqb0 d : In d U -> Nat.eqb (r d) 0 = Nat.eqb d 0.
+Proof.
+  intros H. destruct (Nat.eqb d 0) eqn:E.
+  - apply Nat.eqb_eq in E. apply Nat.eqb_eq. apply (proj2 (Hzero d H)). exact E.
+  - apply Nat.eqb_neq in E. apply Nat.eqb_neq. intro H0. apply E. apply (proj1 (Hzero d H)). exact H0.
+Qed.
+
+Definition gw (p : wport) : wport := WP (r (wp_dom p)) (wp_addr p) (wp_data p) (wp_en p).
+Definition gr (p : rport) : rport := RP (r (rp_dom p)) (rp_addr p) (rp_data p) (rp_en p) (rp_transp p).
+
+Lemma rename_mem_eq m : rename_mem rho m = MI (mi_shape m) (mi_depth m) (mi_init m) (map gw (mi_wports m)) (map gr (mi_rports m)).
+Proof. reflexivity. Qed.
+
+Section OneMem.
+Variable m : meminst.
+Hypothesis HUm : forall d, In d (mem_port_doms m) -> In d U.
+(* the port domains of this memory are not merged *)
+Hypothesis HinjM : forall d1 d2, In d1 (mem_port_doms m) -> In d2 (mem_port_doms m) -> r d1 = r d2 -> d1 = d2.
+
+Lemma r_eqb d1 d2 : In d1 (mem_port_doms m) -> In d2 (mem_port_doms m) -> Nat.eqb (r d1) (r d2) = Nat.eqb d1 d2.
+Proof.
+  intros H1 H2. destruct (Nat.eqb d1 d2) eqn:E.
+  - apply Nat.eqb_eq in E. subst. apply Nat.eqb_refl.
+  - apply Nat.eqb_neq. intro H. apply HinjM in H; auto. apply Nat.eqb_neq in E. auto.
+Qed.
+
+Lemma HPw p : In p (mi_wports m) -> In (wp_dom p) (mem_port_doms m).
+Proof. intros H. unfold mem_port_doms. apply in_or_app. left. apply in_map. auto. Qed.
+Lemma HPr p : In p (mi_rports m) -> In (rp_dom p) (mem_port_doms m).
+Proof. intros H. unfold mem_port_doms. apply in_or_app. right. apply in_map. auto. Qed.
+
+Lemma mem_masks_map l : mem_masks (map gr l) = mem_masks l.
+Proof. unfold mem_masks. apply fold_left_map_ext. reflexivity. Qed.
+
+Lemma mem_comb_rename rw st : mem_comb (g_tab D) rw st (rename_mem rho m) = mem_comb (g_tab D) rw st m.
+Proof.
+  rewrite rename_mem_eq. unfold mem_comb. cbn [mi_rports mi_depth].
+  rewrite (filter_map_comm _ (fun p => Nat.eqb (rp_dom p) 0) gr) by (intros x Hx; cbn [gr rp_dom]; apply r_eqb0, HUm, HPr; auto).
+  rewrite mem_masks_map. f_equal. 
+  assert (E : forall l nx, fold_left (fun nx p => assign_rtl (s_curr st) (rp_data p)
+               (mem_read (mi_depth m) rw (rmask (ewidth (rp_addr p)) (eval_rtl (s_curr st) (rp_addr p)))) nx) (map gr l) nx
+             = fold_left (fun nx p => assign_rtl (s_curr st) (rp_data p)
+               (mem_read (mi_depth m) rw (rmask (ewidth (rp_addr p)) (eval_rtl (s_curr st) (rp_addr p)))) nx) l nx).
+  { intros l nx. apply fold_left_map_ext. reflexivity. }
+  rewrite E. reflexivity.
+Qed.
+
+Lemma mem_sync_rename d rw sq : In d (mem_port_doms m) ->
+  mem_sync (g_tab D) (rename_mem rho m) (r d) rw sq = mem_sync (g_tab D) m d rw sq.
+Proof.
+  intros Hd. rewrite rename_mem_eq. unfold mem_sync. cbn [mi_rports mi_wports mi_depth mi_shape].
+  rewrite (filter_map_comm _ (fun p => Nat.eqb (rp_dom p) d) gr)
+    by (intros x Hx; cbn [gr rp_dom]; apply r_eqb; auto; apply HPr; auto).
+  rewrite mem_masks_map.
+  assert (Ewv : map (port_wvals (s_curr (fst sq)) (r d)) (map gw (mi_wports m)) = map (port_wvals (s_curr (fst sq)) d) (mi_wports m)).
+  { rewrite map_map. apply map_ext_in. intros p Hp. unfold port_wvals. cbn [gw wp_dom wp_addr wp_data wp_en].
+    rewrite r_eqb by (auto; apply HPw; auto). reflexivity. }
+  rewrite Ewv.
+  assert (E : forall l nx, fold_left (read_port_sync (MI (mi_shape m) (mi_depth m) (mi_init m) (map gw (mi_wports m)) (map gr (mi_rports m)))
+                 (s_curr (fst sq)) rw (map (port_wvals (s_curr (fst sq)) d) (mi_wports m))) (map gr l) nx
+             = fold_left (read_port_sync m (s_curr (fst sq)) rw (map (port_wvals (s_curr (fst sq)) d) (mi_wports m))) l nx).
+  { intros l nx. apply fold_left_map_ext. reflexivity. }
+  rewrite E. reflexivity.
+Qed.
+
+Lemma mem_doms_rename : mem_doms (rename_mem rho m) = map r (mem_doms m).
+Proof.
+  rewrite rename_mem_eq. unfold mem_doms. cbn [mi_wports mi_rports].
+  replace (map wp_dom (map gw (mi_wports m)) ++ map rp_dom (map gr (mi_rports m))) with (map r (mem_port_doms m))
+    by (unfold mem_port_doms; rewrite map_app, !map_map; reflexivity).
+  change (@nil nat) with (map r []) at 1. rewrite uniq_map.
+  - apply filter_map_comm. intros x Hx. rewrite r_eqb0; auto. apply HUm. eapply uniq_sub; eauto.
+  - cbn [app]. intros x y Hx Hy. apply HinjM; auto.
+Qed.
+
+Lemma mem_doms_in d : In d (mem_doms m) -> In d (mem_port_doms m).
+Proof.
+  unfold mem_doms. intros H. apply filter_In in H. destruct H as [H _]. eapply uniq_sub; eauto.
+Qed.
+
+Lemma mem_delta2_rename cur nx rw st :
+  mem_delta2 D' cur nx (rename_mem rho m) rw st = mem_delta2 D cur nx m rw st.
+Proof.
+  unfold mem_delta2. rewrite mem_doms_rename. unfold D' at 2. cbn [g_tab]. rewrite mem_comb_rename.
+  apply fold_left_map_ext. intros sq d Hd. unfold D'. cbn [g_doms g_tab].
+  assert (HdP := mem_doms_in d Hd). assert (HdU := HUm d HdP).
+  assert (Hd0 : d <> 0%nat).
+  { unfold mem_doms in Hd. apply filter_In in Hd. destruct Hd as [_ Hd]. destruct (Nat.eqb d 0) eqn:E; [discriminate|].
+    apply Nat.eqb_neq; auto. }
+  rewrite Hcfg by auto. destruct (clk_edge _ _ _); auto. apply mem_sync_rename; auto.
+Qed.
+End OneMem.
+
+Variable ms : list meminst.
+Hypothesis HUms : forall m d, In m ms -> In d (mem_port_doms m) -> In d U.
+Hypothesis HinjMs : forall m d1 d2, In m ms -> In d1 (mem_port_doms m) -> In d2 (mem_port_doms m) -> r d1 = r d2 -> d1 = d2.
+
+Lemma mems_delta2_rename cur nx : forall l, (forall m, In m l -> In m ms) -> forall rws st,
+  mems_delta2 D' cur nx (map (rename_mem rho) l) rws st = mems_delta2 D cur nx l rws st.
+Proof.
+  induction l as [|m l IH]; intros Hl rws st; [reflexivity|]. cbn [map mems_delta2]. destruct rws as [|rw rws]; [reflexivity|].
+  rewrite mem_delta2_rename; [|intros d Hd; eapply HUms; eauto; apply Hl; simpl; auto|intros d1 d2; apply HinjMs; apply Hl; simpl; auto].
+  rewrite IH by (intros; apply Hl; simpl; auto). reflexivity.
+Qed.
+
+Lemma ren_eqb0' p : In p (g_procs D) -> Nat.eqb (rename_dom rho (fst p)) 0 = Nat.eqb (fst p) 0.
+Proof. intros H. apply r_eqb0. apply HUp; auto. Qed.
+
+Lemma msettle_rename : forall fuel rws cur, msettle fuel D' (map (rename_mem rho) ms) rws cur = msettle fuel D ms rws cur.
+Proof.
+  induction fuel as [|k IH]; intros rws cur; cbn [msettle]; auto.
+  assert (E : eval_phase (g_tab D') (g_doms D') (fun _ => false) (g_procs D') {| s_curr := cur; s_next := cur |}
+            = eval_phase (g_tab D) (g_doms D) (fun _ => false) (g_procs D) {| s_curr := cur; s_next := cur |}).
+  { unfold eval_phase, D'. cbn [g_tab g_doms g_procs]. apply fold_left_map_ext. intros a x Hx.
+    unfold run_proc, ren_entry. cbn [fst snd]. rewrite ren_eqb0' by auto. reflexivity. }
+  rewrite E.
+  assert (E2 : forall l st, (forall m, In m l -> In m ms) -> forall rws',
+     fold_left (fun st mr => mem_comb (g_tab D') (snd mr) st (fst mr)) (combine (map (rename_mem rho) l) rws') st
+     = fold_left (fun st mr => mem_comb (g_tab D) (snd mr) st (fst mr)) (combine l rws') st).
+  { induction l as [|m l IHl]; intros st Hl rws'; [reflexivity|]. destruct rws' as [|rw rws']; [reflexivity|].
+    cbn [map combine fold_left fst snd]. unfold D' at 1. cbn [g_tab].
+    rewrite mem_comb_rename by (intros d Hd; eapply HUms; eauto; apply Hl; simpl; auto).
+    apply IHl. intros; apply Hl; simpl; auto. }
+  rewrite E2 by auto. unfold D' at 1 2 3. cbn [g_nsig]. destruct (differs _ _ _); auto.
+Qed.
+
+Theorem mstep_rename e s : mstep D' (map (rename_mem rho) ms) e s = mstep D ms e s.
+Proof.
+  unfold mstep. unfold fuel_of. change (g_nsig D') with (g_nsig D).
+  set (nx := freeze (g_nsig D) (apply_writes e (fst s))).
+  assert (E : fold_left (fun st p => if Nat.eqb (fst p) 0 then comb_process (g_tab D') (snd p) st
+                 else sync_code (g_tab D') (snd p) (g_doms D' (fst p)) (fst s) nx st) (g_procs D') {| s_curr := nx; s_next := nx |}
+            = fold_left (fun st p => if Nat.eqb (fst p) 0 then comb_process (g_tab D) (snd p) st
+                 else sync_code (g_tab D) (snd p) (g_doms D (fst p)) (fst s) nx st) (g_procs D) {| s_curr := nx; s_next := nx |}).
+  { unfold D'. cbn [g_procs g_tab g_doms]. apply fold_left_map_ext. intros a x Hx.
+    unfold ren_entry. cbn [fst snd]. rewrite ren_eqb0' by auto.
+    destruct (Nat.eqb (fst x) 0) eqn:E0; auto. change (rename_dom rho (fst x)) with (r (fst x)).
+    rewrite Hcfg; [reflexivity|apply HUp; auto|apply Nat.eqb_neq; auto]. }
+  rewrite E. rewrite mems_delta2_rename by auto. rewrite msettle_rename. reflexivity.
+Qed.
+
+Theorem mrun_rename evs : forall s, mrun D' (map (rename_mem rho) ms) evs s = mrun D ms evs s.
+Proof. induction evs as [|e evs IH]; intros s; cbn [mrun]; auto. rewrite mstep_rename, IH. reflexivity. Qed.
+
+Theorem minit_rename : minit D' (map (rename_mem rho) ms) = minit D ms.
+Proof.
+  unfold minit. rewrite map_map. unfold fuel_of. unfold D' at 1 2 3. cbn [g_nsig g_tab].
+  replace (map (fun x => init_rows (rename_mem rho x)) ms) with (map init_rows ms) by (apply map_ext; reflexivity).
+  rewrite msettle_rename. reflexivity.
+Qed.
+End RenameMem.
+
+(* ---------- fragment trees ---------- *)
+Theorem rename_tree_trace tab doms doms' rho f n U :
+  no_merge rho f ->
+  (forall d, In d U -> (rename_dom rho d = 0%nat <-> d = 0%nat)) ->
+  (forall d, In d U -> d <> 0%nat -> doms' (rename_dom rho d) = doms d) ->
+  (forall p, In p (flatten f) -> In (fst p) U) ->
+  (forall m d, In m (frag_mems f) -> In d (mem_port_doms m) -> In d U) ->
+  (forall m d1 d2, In m (frag_mems f) -> In d1 (mem_port_doms m) -> In d2 (mem_port_doms m) ->
+     rename_dom rho d1 = rename_dom rho d2 -> d1 = d2) ->
+  let D := mk_design tab doms f n in
+  let D' := mk_design tab doms' (domain_renamer rho f) n in
+  minit D' (frag_mems (domain_renamer rho f)) = minit D (frag_mems f) /\
+  forall evs s, mrun D' (frag_mems (domain_renamer rho f)) evs s = mrun D (frag_mems f) evs s.
+Proof.
+  intros Hnm Hz Hc Hp Hm Hi D D'. unfold D', mk_design. rewrite flatten_rename by auto. rewrite frag_mems_rename.
+  split.
+  - apply (minit_rename D rho doms' U); auto.
+  - intros evs s. apply (mrun_rename D rho doms' U); auto.
+Qed.
+
+(* without memories: the signal engine *)
+Theorem rename_tree_run tab doms doms' rho f n evs cur :
+  no_merge rho f ->
+  (forall p, In p (flatten f) -> (rename_dom rho (fst p) = 0%nat <-> fst p = 0%nat)) ->
+  (forall p, In p (flatten f) -> fst p <> 0%nat -> doms' (rename_dom rho (fst p)) = doms (fst p)) ->
+  run (mk_design tab doms' (domain_renamer rho f) n) evs cur = run (mk_design tab doms f n) evs cur.
+Proof.
+  intros Hnm Hz Hc. unfold mk_design. rewrite flatten_rename by auto.
+  exact (rename_run (mk_design tab doms f n) rho doms' Hz Hc sync_code evs cur).
+Qed.
+
+(* ---------- one pair (a, b) ---------- *)
+Lemma rename_dom_single a b d : rename_dom [(a, b)] d = if Nat.eqb a d then b else d.
+Proof. unfold rename_dom, lookup. cbn [find fst snd]. destruct (Nat.eqb a d); reflexivity. Qed.
+
+Lemma NoDup_map_inj_on {A B} (g : A -> B) l : NoDup l ->
+  (forall x y, In x l -> In y l -> g x = g y -> x = y) -> NoDup (map g l).
+Proof.
+  induction l as [|x l IH]; intros Hnd Hinj; [constructor|]. inversion Hnd; subst. cbn [map]. constructor.
+  - intro H. apply in_map_iff in H. destruct H as [y [Hy Hin]]. assert (y = x) by (apply Hinj; simpl; auto). subst. auto.
+  - apply IH; auto. intros; apply Hinj; simpl; auto.
+Qed.
+
+
+Lemma no_merge_pair a b f : frag_dicts_ok f ->
+  (forall st, In st (frag_nodes f) -> ~ (In a (map fst st) /\ In b (map fst st))) ->
+  no_merge [(a, b)] f.
+Proof.
+  intros Hd Hab st Hst. destruct (Hd st Hst) as [Hnd Hne]. split; auto.
+  rewrite <- (map_map fst (rename_dom [(a, b)])). apply NoDup_map_inj_on; auto.
+  intros x y Hx Hy. rewrite !rename_dom_single.
+  destruct (Nat.eqb a x) eqn:Ex, (Nat.eqb a y) eqn:Ey; try apply Nat.eqb_eq in Ex; try apply Nat.eqb_eq in Ey; intros E; subst; auto.
+  - exfalso. apply (Hab st Hst). auto.
+  - exfalso. apply (Hab st Hst). auto.
+Qed.
+
+(* renaming a to a FRESH domain b whose configuration in the new table is a's *)
+Theorem rename_fresh_tree_trace tab doms doms' a b f n U :
+  a <> 0%nat -> b <> 0%nat -> ~ In b U -> frag_dicts_ok f ->
+  (forall p, In p (flatten f) -> In (fst p) U) ->
+  (forall st e, In st (frag_nodes f) -> In e st -> In (fst e) U) ->
+  (forall m d, In m (frag_mems f) -> In d (mem_port_doms m) -> In d U) ->
+  doms' b = doms a -> (forall d, In d U -> d <> a -> doms' d = doms d) ->
+  let D := mk_design tab doms f n in
+  let D' := mk_design tab doms' (domain_renamer [(a, b)] f) n in
+  minit D' (frag_mems (domain_renamer [(a, b)] f)) = minit D (frag_mems f) /\
+  forall evs s, mrun D' (frag_mems (domain_renamer [(a, b)] f)) evs s = mrun D (frag_mems f) evs s.
+Proof.
+  intros Ha Hb Hfresh Hd Hp Hk Hm Hcb Hco. apply (rename_tree_trace tab doms doms' [(a, b)] f n U); auto.
+  - apply no_merge_pair; auto. intros st Hst [_ Hin]. apply Hfresh. apply in_map_iff in Hin.
+    destruct Hin as [e [<- He]]. eapply Hk; eauto.
+  - intros d Hd0. rewrite rename_dom_single. destruct (Nat.eqb a d) eqn:E.
+    + apply Nat.eqb_eq in E. subst. split; intros; congruence.
+    + reflexivity.
+  - intros d HdU Hd0. rewrite rename_dom_single. destruct (Nat.eqb a d) eqn:E.
+    + apply Nat.eqb_eq in E. subst. auto.
+    + apply Hco; auto. apply Nat.eqb_neq in E. auto.
+  - intros m d1 d2 Hmm H1 H2. rewrite !rename_dom_single.
+    destruct (Nat.eqb a d1) eqn:E1, (Nat.eqb a d2) eqn:E2; try apply Nat.eqb_eq in E1; try apply Nat.eqb_eq in E2;
+      intros E; subst; auto.
+    + exfalso. apply Hfresh. eapply Hm; eauto.
+    + exfalso. apply Hfresh. eapply Hm; eauto.
+Qed.
+
+(* renaming a ONTO an existing domain b with the identical configuration (same table): proved when no single fragment
+   and no single memory holds logic of both a and b (their processes stay separate processes of one domain) *)
+Theorem rename_onto_existing_tree_trace tab doms a b f n U :
+  a <> 0%nat -> b <> 0%nat -> doms b = doms a -> frag_dicts_ok f ->
+  (forall st, In st (frag_nodes f) -> ~ (In a (map fst st) /\ In b (map fst st))) ->
+  (forall m, In m (frag_mems f) -> ~ (In a (mem_port_doms m) /\ In b (mem_port_doms m))) ->
+  (forall p, In p (flatten f) -> In (fst p) U) ->
+  (forall m d, In m (frag_mems f) -> In d (mem_port_doms m) -> In d U) ->
+  let D := mk_design tab doms f n in
+  let D' := mk_design tab doms (domain_renamer [(a, b)] f) n in
+  minit D' (frag_mems (domain_renamer [(a, b)] f)) = minit D (frag_mems f) /\
+  forall evs s, mrun D' (frag_mems (domain_renamer [(a, b)] f)) evs s = mrun D (frag_mems f) evs s.
+Proof.
+  intros Ha Hb Hcb Hd Hst Hmm Hp Hm. apply (rename_tree_trace tab doms doms [(a, b)] f n U); auto.
+  - apply no_merge_pair; auto.
+  - intros d Hd0. rewrite rename_dom_single. destruct (Nat.eqb a d) eqn:E.
+    + apply Nat.eqb_eq in E. subst. split; intros; congruence.
+    + reflexivity.
+  - intros d HdU Hd0. rewrite rename_dom_single. destruct (Nat.eqb a d) eqn:E.
+    + apply Nat.eqb_eq in E. subst. auto.
+    + reflexivity.
+  - intros m d1 d2 Hin H1 H2. rewrite !rename_dom_single.
+    destruct (Nat.eqb a d1) eqn:E1, (Nat.eqb a d2) eqn:E2; try apply Nat.eqb_eq in E1; try apply Nat.eqb_eq in E2;
+      intros E; subst; auto.
+    + exfalso. apply (Hmm m Hin). auto.
+    + exfalso. apply (Hmm m Hin). auto.
+Qed.
